@@ -155,10 +155,15 @@ def fillV (fz : Bool) (rw : Rune → Int) (s : WS) (r : Rune) (st : Style) : WS 
 def regionCells (x y w h : Int) : List (Int × Int) :=
   (List.range h.toNat).flatMap fun (j : Nat) => (List.range w.toNat).map fun (i : Nat) => (x + (i : Int), y + (j : Int))
 
+/-- one row of `LockRegion` (screen.go:424): lock / unlock `w` cells from `(x, y)`, then — since the fix "a wide character is not
+drawn over a locked cell to its right" — after an unlocked, non-empty row a wide rune just left of it is marked dirty -/
+def lockRegionRow (b : Buf) (x y w : Int) (lock : Bool) : Buf :=
+  let b' := (List.range w.toNat).foldl
+      (fun (b : Buf) (i : Nat) => if lock then b.lockCell (x + (i : Int)) y else b.unlockCell (x + (i : Int)) y) b
+  if lock = false ∧ w > 0 ∧ (b'.getContent (x - 1) y).2.2.2 > 1 then b'.setDirty (x - 1) y true else b'
+
 def lockRegion (s : WS) (x y w h : Int) (lock : Bool) : WS :=
-  let cells' := (regionCells x y w h).foldl
-      (fun (b : Buf) (c : Int × Int) => if lock then b.lockCell c.1 c.2 else b.unlockCell c.1 c.2) s.cells
-  { s with cells := cells' }
+  { s with cells := (List.range h.toNat).foldl (fun (b : Buf) (j : Nat) => lockRegionRow b x (y + (j : Int)) w lock) s.cells }
 
 /-! ### the page: the abstract grid the recorded calls update (what tcell.js keeps in `content.data`) -/
 
